@@ -234,7 +234,8 @@ def r_ids(repo, rep, R='R15.3'):
         if kind == 'leaf':
             child_ok = child is None and 'terminal' in sets
         elif kind == 'unary':
-            child_ok = child == ('sym', 'id-of', 'left_child') or child == ('sym', 'id-of', 'child')
+            child_ok = child is not None and (child in (('sym', 'id-of', 'left_child'), ('sym', 'id-of', 'child')) or
+                                              str_parts(child) in ([('sym', 'id-of', 'left_child')], [('sym', 'id-of', 'child')]))
         else:
             L, Rr = ('sym', 'id-of', 'left_child'), ('sym', 'id-of', 'right_child')
             child_ok = child is not None and str_parts(child) == [L, ' ', Rr] \
